@@ -26,6 +26,50 @@ func closuresOf(c *chk.Ctx, f *ssa.Function) []*ssa.Function {
 	return out
 }
 
+// handedOut lists the functions a builder function may hand out or run as
+// part of what it builds: the closures nested (at any depth) in it and in its
+// private helpers, the helpers themselves, and repository functions referenced
+// as values there.
+func handedOut(c *chk.Ctx, root *ssa.Function) []*ssa.Function {
+	in := map[*ssa.Function]bool{}
+	var add func(f *ssa.Function, depth int)
+	add = func(f *ssa.Function, depth int) {
+		if f == nil || in[f] || depth > 6 || !c.P.InRepo[f] {
+			return
+		}
+		in[f] = true
+		for _, g := range c.P.Funcs {
+			if g.Parent() == f {
+				add(g, depth+1)
+			}
+		}
+		ir.Instrs(f, func(ins ssa.Instruction) {
+			for _, op := range ins.Operands(nil) {
+				if op == nil || *op == nil {
+					continue
+				}
+				if g, ok := (*op).(*ssa.Function); ok && inPkg(c, g, c.M.HandlerPkg) && !ir.Exported(g) {
+					add(g, depth+1)
+				}
+			}
+			if mc, ok := ins.(*ssa.MakeClosure); ok {
+				add(mc.Fn.(*ssa.Function), depth+1)
+			}
+		})
+	}
+	for _, g := range c.P.Ext(root) {
+		add(g, 0)
+	}
+	var out []*ssa.Function
+	for _, g := range c.P.Funcs {
+		if in[g] && g != root {
+			out = append(out, g)
+		}
+	}
+	sort.Slice(out, func(i, j int) bool { return out[i].Pos() < out[j].Pos() })
+	return out
+}
+
 // allConds: conditions dominating b plus, per predecessor edge, that edge's
 // conditions (for blocks entered through short-circuit || joins).
 func predEdgeConds(b *ssa.BasicBlock) [][]ir.Cond {
@@ -47,8 +91,8 @@ func ruleWrapCallsOnce(c *chk.Ctx) {
 		return
 	}
 	var h *ssa.Function
-	for _, g := range closuresOf(c, wrap) {
-		if isHandlerSig(c, g.Signature) {
+	for _, g := range handedOut(c, wrap) {
+		if isHandlerSig(c, g.Signature) && g.Parent() != nil {
 			h = g
 		}
 	}
@@ -60,6 +104,10 @@ func ruleWrapCallsOnce(c *chk.Ctx) {
 	var decodeIn, reflCall, decodeOut *ssa.Call
 	ir.Instrs(h, func(ins ssa.Instruction) {
 		call, ok := ins.(*ssa.Call)
+		if ok && ir.IsCallTo(&call.Call, "(reflect.Value).Call") {
+			reflCall = call // the function value called directly rather than through a pre-bound fv.Call
+			return
+		}
 		if !ok || call.Call.IsInvoke() || call.Call.StaticCallee() != nil {
 			return
 		}
@@ -84,7 +132,8 @@ func ruleWrapCallsOnce(c *chk.Ctx) {
 		return
 	}
 	sameErr := func(v ssa.Value) bool { return ir.IsExtractOf(v, decodeIn, 1) }
-	okGuard := ir.ProvesNil(ir.CondsAt(reflCall.Block()), sameErr) && ir.IsExtractOf(reflCall.Call.Args[0], decodeIn, 0) && !ir.InCycle(reflCall.Block())
+	callArg := reflCall.Call.Args[len(reflCall.Call.Args)-1]
+	okGuard := ir.ProvesNil(ir.CondsAt(reflCall.Block()), sameErr) && ir.IsExtractOf(ir.NormCell(callArg), decodeIn, 0) && !ir.InCycle(reflCall.Block())
 	c.Check(okGuard, "PAIR.wrap", h, "function called exactly on successful decoding", reflCall.Pos(), "the reflective call is reached exactly on the input decoder's err == nil edge, with the decoder's values, outside any loop", "the wrapped function can be called although decoding its argument failed (or is not given the decoded values)")
 	// the error edge returns that error without calling
 	okErr := false
@@ -95,7 +144,7 @@ func ruleWrapCallsOnce(c *chk.Ctx) {
 	}
 	c.Check(okErr, "PAIR.wrap", h, "decode failure returned without calling", h.Pos(), "the decoder's error is returned on its err != nil edge, before any call", "a decoding failure is not returned as is")
 	// results pass through the output decoder
-	okOut := decodeOut.Call.Args[0] == ssa.Value(reflCall)
+	okOut := ir.NormCell(decodeOut.Call.Args[0]) == ssa.Value(reflCall)
 	for _, r := range ir.Returns(h) {
 		if ir.InstrDominates(reflCall, r) {
 			if !ir.IsExtractOf(ir.ReturnResult(r, 0), decodeOut, 0) || !ir.IsExtractOf(ir.ReturnResult(r, 1), decodeOut, 1) {
@@ -105,7 +154,7 @@ func ruleWrapCallsOnce(c *chk.Ctx) {
 	}
 	c.Check(okOut, "PAIR.wrap", h, "result and error passed through", decodeOut.Pos(), "after the call, the handler returns exactly the output decoder's pair for the call's results", "the function's results are not returned through the output decoder unchanged")
 	// D3: output decoders return vals[k].Interface() only
-	for _, g := range closuresOf(c, wrap) {
+	for _, g := range handedOut(c, wrap) {
 		sig := g.Signature
 		if sig.Params().Len() != 1 || sig.Results().Len() != 2 || !strings.Contains(sig.Params().At(0).Type().String(), "reflect.Value") {
 			continue
@@ -138,7 +187,7 @@ func ruleWrapCallsOnce(c *chk.Ctx) {
 	}
 	// D2: input decoders' errors are InvalidParams
 	ip, _ := pkgConstInt(c.M.Pkg, "InvalidParams")
-	for _, g := range closuresOf(c, wrap) {
+	for _, g := range handedOut(c, wrap) {
 		sig := g.Signature
 		if sig.Params().Len() != 2 || sig.Results().Len() != 2 || !strings.Contains(sig.Results().At(0).Type().String(), "reflect.Value") {
 			continue
@@ -148,9 +197,10 @@ func ruleWrapCallsOnce(c *chk.Ctx) {
 			if ir.IsNilConst(ev) {
 				continue
 			}
-			ok := false
-			if gl := globalLoad(ev); gl != nil {
-				// package-level *Error with constant code InvalidParams
+			// every value the error can be: the InvalidParams sentinel, or an error built with the
+			// constant code InvalidParams (possibly inside a private helper whose error is returned)
+			isSentinel := func(gl *ssa.Global) bool {
+				found := false
 				if init := c.M.HandlerPkg.Func("init"); init != nil {
 					ir.Instrs(init, func(ins ssa.Instruction) {
 						st, isSt := ins.(*ssa.Store)
@@ -163,7 +213,7 @@ func ruleWrapCallsOnce(c *chk.Ctx) {
 									for _, r2 := range *fa.Referrers() {
 										if s2, isS := r2.(*ssa.Store); isS {
 											if k, isC := ir.ConstInt(s2.Val); isC && k == ip {
-												ok = true
+												found = true
 											}
 										}
 									}
@@ -172,16 +222,38 @@ func ruleWrapCallsOnce(c *chk.Ctx) {
 						}
 					})
 				}
+				return found
 			}
-			if call, isCall := ev.(*ssa.Call); isCall && call.Call.StaticCallee() != nil && c.P.InRepo[call.Call.StaticCallee()] {
-				if k, isC := ir.ConstInt(call.Call.Args[0]); isC && k == ip {
-					ok = true
+			isBuilder := func(v ssa.Value) bool {
+				call, isCall := v.(*ssa.Call)
+				if !isCall || call.Call.StaticCallee() == nil || !c.P.InRepo[call.Call.StaticCallee()] || len(call.Call.Args) == 0 {
+					return false
 				}
+				_, isC := ir.ConstInt(call.Call.Args[0])
+				return isC
 			}
+			ok := true
+			nsrc := 0
+			for _, src := range c.P.SourcesStop(ev, func(v ssa.Value) bool { return isBuilder(v) || globalLoad(v) != nil }) {
+				if ir.IsNilConst(src) {
+					continue
+				}
+				nsrc++
+				if gl := globalLoad(src); gl != nil && isSentinel(gl) {
+					continue
+				}
+				if isBuilder(src) {
+					if k, _ := ir.ConstInt(src.(*ssa.Call).Call.Args[0]); k == ip {
+						continue
+					}
+				}
+				ok = false
+			}
+			ok = ok && nsrc > 0
 			c.Check(ok, "PAIR.wrap", g, "refusals are InvalidParams", r.Pos(), "the decoder's error is the InvalidParams sentinel or built with code InvalidParams", "an input decoder can fail with an error that is not classified InvalidParams")
 		}
 	}
-	c.Floor("PAIR.wrap", 8, "guard, error edge, pass-through, 3 output decoders, ≥ 3 refusal returns")
+	c.Floor("PAIR.wrap", 6, "guard, error edge, pass-through, output decoders, refusal returns")
 }
 
 // ruleWrapSnapshot: C15-D4: the closures Wrap hands out do not read the
@@ -193,32 +265,32 @@ func ruleWrapSnapshot(c *chk.Ctx) {
 		return
 	}
 	n := 0
+	seenCl := map[*ssa.Function]bool{}
 	for _, name := range []string{"(*FuncInfo).Wrap", "(*FuncInfo).argWrapper"} {
 		f := handlerFunc(c, name)
 		if f == nil {
 			c.Undecided("WHO.snapshot", nil, name, 0, "not found")
 			continue
 		}
-		var visit func(g *ssa.Function)
-		visit = func(g *ssa.Function) {
-			for _, cl := range closuresOf(c, g) {
-				n++
-				bad := ""
-				ir.Instrs(cl, func(ins ssa.Instruction) {
-					if fa, ok := ins.(*ssa.FieldAddr); ok {
-						if o := ir.FieldOwner(fa); o != nil && o.Obj() == fiT {
-							bad = "reads FuncInfo." + ir.FieldVar(fa).Name() + " at call time (" + c.P.Pos(fa.Pos()) + ")"
-						}
-					}
-				})
-				c.Check(bad == "", "WHO.snapshot", cl, "options fixed at wrap time", cl.Pos(), "the closure does not touch the FuncInfo: strictness and array options are those in force when the handler was built", "a closure of the built handler "+bad+": changing an option on the FuncInfo later would change handlers that were already built")
-				visit(cl)
+		for _, cl := range handedOut(c, f) {
+			if cl.Parent() == nil || seenCl[cl] {
+				continue // only what runs at call time: the closures
 			}
+			seenCl[cl] = true
+			n++
+			bad := ""
+			ir.Instrs(cl, func(ins ssa.Instruction) {
+				if fa, ok := ins.(*ssa.FieldAddr); ok {
+					if o := ir.FieldOwner(fa); o != nil && o.Obj() == fiT {
+						bad = "reads FuncInfo." + ir.FieldVar(fa).Name() + " at call time (" + c.P.Pos(fa.Pos()) + ")"
+					}
+				}
+			})
+			c.Check(bad == "", "WHO.snapshot", cl, "options fixed at wrap time", cl.Pos(), "the closure does not touch the FuncInfo: strictness and array options are those in force when the handler was built", "a closure of the built handler "+bad+": changing an option on the FuncInfo later would change handlers that were already built")
 		}
-		visit(f)
 	}
-	if n < 8 {
-		c.Undecided("WHO.snapshot", nil, "handler closures", 0, "found %d closures under Wrap/argWrapper (confirmed by hand: ≥ 8)", n)
+	if n < 4 {
+		c.Undecided("WHO.snapshot", nil, "handler closures", 0, "found %d closures under Wrap/argWrapper (confirmed by hand: ≥ 4)", n)
 	}
 	// the strict stub is chosen exactly when strictFields ∧ ¬Implements(strictType)
 	aw := handlerFunc(c, "(*FuncInfo).argWrapper")
@@ -267,36 +339,44 @@ func ruleCheckRefusals(c *chk.Ctx) {
 			}
 		}
 	})
+	isNum := func(v ssa.Value, name string) bool {
+		call, ok := v.(*ssa.Call)
+		return ok && call.Call.IsInvoke() && call.Call.Method.Name() == name
+	}
+	_, _ = numIn, numOut
+	flip := map[token.Token]token.Token{token.LSS: token.GTR, token.GTR: token.LSS, token.LEQ: token.GEQ, token.GEQ: token.LEQ, token.EQL: token.EQL, token.NEQ: token.NEQ}
+	// kindOf renders an outcome canonically: the relation that holds (negation folded into the
+	// operator), with the constant on the right
 	kindOf := func(cd ir.Cond) string {
-		neg := ""
-		if !cd.Truth {
-			neg = "¬"
-		}
 		if call, ok := cd.V.(*ssa.Call); ok && call.Call.IsInvoke() && call.Call.Method.Name() == "IsVariadic" {
-			return neg + "variadic"
+			if cd.Truth {
+				return "variadic"
+			}
+			return "¬variadic"
 		}
-		bo, ok := cd.V.(*ssa.BinOp)
+		x, y, op, ok := ir.Rel(cd)
 		if !ok {
-			return neg + "other"
+			return "other"
 		}
-		if k, isC := ir.ConstInt(bo.Y); isC {
+		if _, isC := ir.ConstInt(x); isC {
+			x, y, op = y, x, flip[op]
+		}
+		if k, isC := ir.ConstInt(y); isC {
 			switch {
-			case bo.X == numIn:
-				return fmt.Sprintf("%snp%s%d", neg, bo.Op, k)
-			case bo.X == numOut:
-				return fmt.Sprintf("%sno%s%d", neg, bo.Op, k)
-			default:
-				if call, ok := bo.X.(*ssa.Call); ok && call.Call.IsInvoke() && call.Call.Method.Name() == "Kind" {
-					return fmt.Sprintf("%skind%s%d", neg, bo.Op, k)
-				}
+			case isNum(x, "NumIn"):
+				return fmt.Sprintf("np%s%d", op, k)
+			case isNum(x, "NumOut"):
+				return fmt.Sprintf("no%s%d", op, k)
+			case isNum(x, "Kind"):
+				return fmt.Sprintf("kind%s%d", op, k)
 			}
 		}
 		// type comparisons: In(0) != ctxType, Out(1) != errType
-		for _, side := range []ssa.Value{bo.X, bo.Y} {
+		for _, side := range []ssa.Value{x, y} {
 			if g := globalLoad(side); g != nil {
-				other := bo.X
-				if side == bo.X {
-					other = bo.Y
+				other := x
+				if side == x {
+					other = y
 				}
 				which := "?"
 				if call, ok := other.(*ssa.Call); ok && call.Call.IsInvoke() {
@@ -305,13 +385,13 @@ func ruleCheckRefusals(c *chk.Ctx) {
 						which += fmt.Sprintf("(%d)", k)
 					}
 				}
-				return fmt.Sprintf("%s%s%s%s", neg, which, bo.Op, g.Name())
+				return fmt.Sprintf("%s%s%s", which, op, g.Name())
 			}
 		}
-		if ir.IsNilConst(bo.Y) {
-			return neg + "nil" + bo.Op.String()
+		if ir.IsNilConst(y) {
+			return "nil" + op.String()
 		}
-		return neg + "other"
+		return "other"
 	}
 	type refusal struct {
 		r     *ssa.Return
@@ -324,12 +404,14 @@ func ruleCheckRefusals(c *chk.Ctx) {
 		}
 		var rf refusal
 		rf.r = r
-		for _, cs := range predEdgeConds(r.Block()) {
-			var ks []string
-			for _, cd := range cs {
-				ks = append(ks, kindOf(cd))
+		for _, cs0 := range ir.CondAltsAt(r.Block()) {
+			for _, cs := range expandPredicateHelpers(c, cs0, 0) {
+				var ks []string
+				for _, cd := range cs {
+					ks = append(ks, kindOf(cd))
+				}
+				rf.conds = append(rf.conds, ks)
 			}
-			rf.conds = append(rf.conds, ks)
 		}
 		refs = append(refs, rf)
 	}
@@ -356,14 +438,14 @@ func ruleCheckRefusals(c *chk.Ctx) {
 		name string
 		pred func(ks []string) bool
 	}{
-		{"not a function", func(ks []string) bool { return has(ks, fmt.Sprintf("kind!=%d", funcKind)) || has(ks, fmt.Sprintf("¬kind==%d", funcKind)) }},
-		{"no parameters", func(ks []string) bool { return has(ks, "np==0") || has(ks, "np<1") }},
+		{"not a function", func(ks []string) bool { return has(ks, fmt.Sprintf("kind!=%d", funcKind)) }},
+		{"no parameters", func(ks []string) bool { return has(ks, "np==0") || has(ks, "np<1") || has(ks, "np<=0") }},
 		{"more than two parameters", func(ks []string) bool { return has(ks, "np>2") || has(ks, "np>=3") }},
-		{"first parameter is not context.Context", func(ks []string) bool { return has(ks, "In(0)!=ctxType") || has(ks, "¬In(0)==ctxType") }},
+		{"first parameter is not context.Context", func(ks []string) bool { return has(ks, "In(0)!=ctxType") }},
 		{"variadic", func(ks []string) bool { return has(ks, "variadic") }},
-		{"no results", func(ks []string) bool { return has(ks, "no<1") || has(ks, "no==0") }},
+		{"no results", func(ks []string) bool { return has(ks, "no<1") || has(ks, "no==0") || has(ks, "no<=0") }},
 		{"more than two results", func(ks []string) bool { return has(ks, "no>2") || has(ks, "no>=3") }},
-		{"two results and the second is not error", func(ks []string) bool { return (has(ks, "no==2") || has(ks, "¬no!=2")) && (has(ks, "Out(1)!=errType") || has(ks, "¬Out(1)==errType")) }},
+		{"two results and the second is not error", func(ks []string) bool { return has(ks, "no==2") && has(ks, "Out(1)!=errType") }},
 	}
 	for _, w := range want {
 		rf := find(w.pred)
@@ -394,6 +476,9 @@ func ruleCheckRefusals(c *chk.Ctx) {
 
 // npHolds evaluates a rendered "np<op>k" condition (possibly negated) for np = n.
 func npHolds(k string, n int64) bool {
+	if !strings.HasPrefix(strings.TrimPrefix(k, "¬"), "np") {
+		return true
+	}
 	neg := strings.HasPrefix(k, "¬")
 	k = strings.TrimPrefix(k, "¬")
 	k = strings.TrimPrefix(k, "np")
@@ -433,27 +518,66 @@ func npHolds(k string, n int64) bool {
 // ruleExactLength: success returns after an array parse are governed by the
 // length equality.
 func ruleExactLength(c *chk.Ctx) {
-	for _, name := range []string{"(Args).UnmarshalJSON", "(*arrayStub).translate"} {
-		f := handlerFunc(c, name)
-		if f == nil {
-			c.Undecided("PAIR.length", nil, name, 0, "not found")
-			continue
+	// the functions that split a JSON array into raw elements and map them onto a fixed list
+	// of positions: found by what they do (json.Unmarshal into a []json.RawMessage, directly or
+	// through a private helper), not by name
+	isArrayParse := func(call *ssa.Call) bool {
+		if !ir.IsCallTo(&call.Call, "encoding/json.Unmarshal") || len(call.Call.Args) != 2 {
+			return false
 		}
-		// the array parse
-		var parse *ssa.Call
+		mi, ok := call.Call.Args[1].(*ssa.MakeInterface)
+		if !ok {
+			return false
+		}
+		pt, ok := mi.X.Type().(*types.Pointer)
+		if !ok {
+			return false
+		}
+		sl, ok := pt.Elem().Underlying().(*types.Slice)
+		return ok && strings.HasSuffix(sl.Elem().String(), "json.RawMessage")
+	}
+	type parseSite struct {
+		f     *ssa.Function
+		parse *ssa.Call
+	}
+	var sites []parseSite
+	helper := map[*ssa.Function]bool{}
+	for _, f := range pkgFuncs(c, c.M.HandlerPkg) {
 		ir.Instrs(f, func(ins ssa.Instruction) {
-			if call, ok := ins.(*ssa.Call); ok && ir.IsCallTo(&call.Call, "encoding/json.Unmarshal") && parse == nil {
-				parse = call
+			if call, ok := ins.(*ssa.Call); ok && isArrayParse(call) {
+				sites = append(sites, parseSite{f, call})
 			}
 		})
-		if parse == nil {
-			c.Undecided("PAIR.length", f, "array parse", f.Pos(), "no json.Unmarshal found")
+	}
+	// a shared splitting helper: its callers are the mapping functions
+	var expanded []parseSite
+	for _, s := range sites {
+		returnsSlice := false
+		if s.f.Signature.Results().Len() >= 1 {
+			if sl, ok := s.f.Signature.Results().At(0).Type().Underlying().(*types.Slice); ok && strings.HasSuffix(sl.Elem().String(), "json.RawMessage") {
+				returnsSlice = true
+			}
+		}
+		if returnsSlice && !ir.Exported(s.f) {
+			helper[s.f] = true
+			for _, cs := range c.P.Callers(s.f) {
+				if call, ok := cs.Instr.(*ssa.Call); ok {
+					expanded = append(expanded, parseSite{cs.Caller, call})
+				}
+			}
 			continue
 		}
+		expanded = append(expanded, s)
+	}
+	if len(expanded) < 2 {
+		c.Undecided("PAIR.length", nil, "array parse", 0, "found %d functions that split a JSON array into positions (want 2: Args, the array stub)", len(expanded))
+	}
+	for _, ps := range expanded {
+		f, parse := ps.f, ps.parse
 		n := 0
 		for _, r := range ir.Returns(f) {
 			last := len(r.Results) - 1
-			if !ir.IsNilConst(ir.ReturnResult(r, last)) && !isCallResultErr(ir.ReturnResult(r, last)) {
+			if !ir.IsNilConst(ir.ReturnResult(r, last)) && !(last >= 1 && isTailPair(ir.ReturnResult(r, 0), ir.ReturnResult(r, last))) {
 				continue // an error return
 			}
 			if !ir.InstrDominates(parse, r) {
@@ -478,6 +602,18 @@ func ruleExactLength(c *chk.Ctx) {
 			c.Undecided("PAIR.length", f, "success returns", f.Pos(), "no successful return after the array parse")
 		}
 	}
+}
+
+// isTailPair: value and error are the two results of one call (return json.Marshal(obj)):
+// a success path that merely forwards what the final encoding step reports.
+func isTailPair(v, e ssa.Value) bool {
+	ev, ok1 := e.(*ssa.Extract)
+	vv, ok2 := v.(*ssa.Extract)
+	if !ok1 || !ok2 || ev.Tuple != vv.Tuple || vv.Index != 0 {
+		return false
+	}
+	_, isCall := ev.Tuple.(*ssa.Call)
+	return isCall
 }
 
 // isCallResultErr: the error result is the tail of another call (json.Marshal(obj)) — counts as a success path.
@@ -551,7 +687,14 @@ func rulePositional(c *chk.Ctx) {
 	var callArgs ssa.Value
 	ir.Instrs(cl, func(ins ssa.Instruction) {
 		call, ok := ins.(*ssa.Call)
-		if !ok || call.Call.IsInvoke() || call.Call.StaticCallee() != nil {
+		if !ok {
+			return
+		}
+		if ir.IsCallTo(&call.Call, "(reflect.Value).Call") {
+			callArgs = call.Call.Args[len(call.Call.Args)-1]
+			return
+		}
+		if call.Call.IsInvoke() || call.Call.StaticCallee() != nil {
 			return
 		}
 		if _, isB := call.Call.Value.(*ssa.Builtin); isB {
@@ -559,15 +702,33 @@ func rulePositional(c *chk.Ctx) {
 		}
 		callArgs = call.Call.Args[0]
 	})
+	// the argument slice is made for this very call: inside the per-call closure, or inside a
+	// private helper the closure calls to build it
 	fresh := false
+	argFn := cl
 	if callArgs != nil {
-		if mk, ok := ir.NormCell(callArgs).(*ssa.MakeSlice); ok && mk.Parent() == cl {
+		v := ir.NormCell(callArgs)
+		if mk, ok := v.(*ssa.MakeSlice); ok && mk.Parent() == cl {
 			fresh = true
+		}
+		if hc, ok := v.(*ssa.Call); ok && hc.Parent() == cl {
+			if h := hc.Call.StaticCallee(); h != nil && c.P.InRepo[h] && !ir.Exported(h) {
+				all, n := true, 0
+				for _, r := range ir.Returns(h) {
+					n++
+					if mk, ok := ir.NormCell(ir.ReturnResult(r, 0)).(*ssa.MakeSlice); !ok || mk.Parent() != h {
+						all = false
+					}
+				}
+				if all && n > 0 {
+					fresh, argFn = true, h
+				}
+			}
 		}
 	}
 	c.Check(fresh, "PAIR.positional", cl, "argument slice is per call", cl.Pos(), "the argument slice handed to the function is allocated inside the per-call closure", "the generated caller reuses an argument slice across calls: concurrent calls of one handler would see each other's arguments")
 	okIdx := false
-	ir.Instrs(cl, func(ins ssa.Instruction) {
+	ir.Instrs(argFn, func(ins ssa.Instruction) {
 		st, ok := ins.(*ssa.Store)
 		if !ok {
 			return
@@ -580,10 +741,15 @@ func rulePositional(c *chk.Ctx) {
 		if !ok || bo.Op != token.ADD {
 			return
 		}
-		if k, _ := ir.ConstInt(bo.Y); k != 1 {
-			return
+		idx := bo.X
+		if k, isK := ir.ConstInt(bo.Y); !isK || k != 1 {
+			if k2, isK2 := ir.ConstInt(bo.X); isK2 && k2 == 1 {
+				idx = bo.Y
+			} else {
+				return
+			}
 		}
-		if call, ok := st.Val.(*ssa.Call); ok && ir.IsCallTo(&call.Call, "(reflect.Value).Field") && call.Call.Args[1] == bo.X {
+		if call, ok := st.Val.(*ssa.Call); ok && ir.IsCallTo(&call.Call, "(reflect.Value).Field") && call.Call.Args[1] == idx {
 			okIdx = true
 		}
 	})
@@ -640,17 +806,20 @@ func ruleObjDecode(c *chk.Ctx) {
 // exactly when its whole json tag is "-" (encoding/json's rule: the tag "-,"
 // names a field literally called "-").
 func ruleOmitTagWholeTag(c *chk.Ctx) {
-	f := c.M.HandlerPkg.Func("structFieldNames")
+	// the function that derives positional names from json tags: the one that looks the json tag up
+	var f *ssa.Function
+	var lookup *ssa.Call
+	for _, g := range pkgFuncs(c, c.M.HandlerPkg) {
+		ir.Instrs(g, func(ins ssa.Instruction) {
+			if call, ok := ins.(*ssa.Call); ok && ir.IsCallTo(&call.Call, "(reflect.StructTag).Lookup") {
+				f, lookup = g, call
+			}
+		})
+	}
 	if f == nil {
-		c.Undecided("TABLE.tag", nil, "structFieldNames", 0, "not found")
+		c.Undecided("TABLE.tag", nil, "structFieldNames", 0, "no function looks a json struct tag up")
 		return
 	}
-	var lookup *ssa.Call
-	ir.Instrs(f, func(ins ssa.Instruction) {
-		if call, ok := ins.(*ssa.Call); ok && ir.IsCallTo(&call.Call, "(reflect.StructTag).Lookup") {
-			lookup = call
-		}
-	})
 	n := 0
 	ir.Instrs(f, func(ins ssa.Instruction) {
 		bo, ok := ins.(*ssa.BinOp)
@@ -677,19 +846,61 @@ func ruleDecodeTargets(c *chk.Ctx) {
 		return
 	}
 	ptrForm, valForm := false, false
-	for _, g := range closuresOf(c, wrap) {
-		var nw *ssa.Call
+	for _, g := range handedOut(c, wrap) {
+		if g.Parent() == nil {
+			continue
+		}
+		// the freshly allocated decode target in g: reflect.New(...) directly, or the first
+		// result of a private helper that returns reflect.New(its parameter)
+		var nw ssa.Value
+		elemArg := false
+		isElemCall := func(v ssa.Value) bool {
+			call, ok := v.(*ssa.Call)
+			return ok && call.Call.IsInvoke() && call.Call.Method.Name() == "Elem"
+		}
 		ir.Instrs(g, func(ins ssa.Instruction) {
-			if call, ok := ins.(*ssa.Call); ok && ir.IsCallTo(&call.Call, "reflect.New") {
+			call, ok := ins.(*ssa.Call)
+			if !ok {
+				return
+			}
+			if ir.IsCallTo(&call.Call, "reflect.New") {
+				nw, elemArg = call, isElemCall(ir.NormCell(call.Call.Args[0]))
+				return
+			}
+			h := call.Call.StaticCallee()
+			if h == nil || !c.P.InRepo[h] || ir.Exported(h) {
+				return
+			}
+			var inner *ssa.Call
+			ir.Instrs(h, func(i2 ssa.Instruction) {
+				if c2, ok := i2.(*ssa.Call); ok && ir.IsCallTo(&c2.Call, "reflect.New") {
+					inner = c2
+				}
+			})
+			if inner == nil {
+				return
+			}
+			prm, isParam := ir.NormCell(inner.Call.Args[0]).(*ssa.Parameter)
+			if !isParam {
+				return
+			}
+			for i, q := range h.Params {
+				if q == prm && i < len(call.Call.Args) {
+					elemArg = isElemCall(ir.NormCell(call.Call.Args[i]))
+				}
+			}
+			// the helper's result that carries the New value
+			for _, r := range *call.Referrers() {
+				if e, ok := r.(*ssa.Extract); ok && e.Index == 0 {
+					nw = e
+				}
+			}
+			if h.Signature.Results().Len() == 1 {
 				nw = call
 			}
 		})
 		if nw == nil {
 			continue
-		}
-		elemArg := false
-		if call, ok := nw.Call.Args[0].(*ssa.Call); ok && call.Call.IsInvoke() && call.Call.Method.Name() == "Elem" {
-			elemArg = true
 		}
 		passesElem, passesPtr := false, false
 		for _, r := range ir.Returns(g) {
@@ -698,10 +909,11 @@ func ruleDecodeTargets(c *chk.Ctx) {
 			}
 			vals, _ := c.P.ElementValues(ir.ReturnResult(r, 0))
 			for _, v := range vals {
-				if v == ssa.Value(nw) {
+				v = ir.NormCell(v)
+				if v == nw {
 					passesPtr = true
 				}
-				if call, ok := v.(*ssa.Call); ok && ir.IsCallTo(&call.Call, "(reflect.Value).Elem") && call.Call.Args[0] == ssa.Value(nw) {
+				if call, ok := v.(*ssa.Call); ok && ir.IsCallTo(&call.Call, "(reflect.Value).Elem") && ir.NormCell(call.Call.Args[0]) == nw {
 					passesElem = true
 				}
 			}
